@@ -496,6 +496,53 @@ func VerifC12Gateway(h *verifrt.H) {
 	})
 }
 
+// VerifC12Create: cap-bearing PatchTreasures that CREATE records (CreateIfNotExist) from a seed
+// body (InitialMsgpackOnCreate) which already matches the cap filter or not, with an op that
+// moves the record into the filter or leaves it alone: two sequential single-key batches over
+// fresh keys against a swamp that holds no matching record and cap 1 - afterwards at most one
+// record matches, whatever the seed looks like (a freshly created record never counted before).
+func VerifC12Create(h *verifrt.H) {
+	g, _ := gwNew(h)
+	h.Stub("github.com/vmihailenco/msgpack/v5.Unmarshal", c12unmarshal)
+	ctx := context.Background()
+	body := func(c byte) []byte { return []byte{0xC7, 0x00, 0x81, 0xa1, 's', 0xa1, c} }
+	_, err := g.Set(ctx, &hydrapb.SetRequest{Swamps: []*hydrapb.SwampRequest{{SwampName: gwSwamp, CreateIfNotExist: true, Overwrite: true,
+		KeyValues: []*hydrapb.KeyValuePair{{Key: "a", BytesVal: body('p')}}}}})
+	h.Assert(err == nil, "setup")
+	path := "s"
+	cap := &hydrapb.Cap{MaxMatching: 1, Filter: &hydrapb.FilterGroup{Filters: []*hydrapb.TreasureFilter{{
+		Operator: hydrapb.Relational_EQUAL, BytesFieldPath: &path, CompareValue: &hydrapb.TreasureFilter_StringVal{StringVal: "d"}}}}}
+	seeds := [][]byte{nil, {0x81, 0xa1, 's', 0xa1, 'p'}, {0x81, 0xa1, 's', 0xa1, 'd'}}
+	for _, k := range []string{"c", "e"} {
+		seed := seeds[h.Choose("seed", len(seeds))]
+		val := []byte{0xa1, 'd'}
+		if h.Choose("opMovesIntoFilter", 2) == 0 {
+			val = []byte{0xa1, 'q'}
+		}
+		opPath := "s"
+		resp, err := g.PatchTreasures(ctx, &hydrapb.PatchTreasuresRequest{SwampName: gwSwamp, Cap: cap, CreateIfNotExist: true, InitialMsgpackOnCreate: seed,
+			Patches: []*hydrapb.TreasurePatch{{Key: k, Ops: []*hydrapb.PatchOp{{Op: hydrapb.PatchOp_SET, Path: opPath, Value: val}}}}})
+		h.Assert(err != nil || resp != nil, "cap-create-batch-returns")
+	}
+	resp, err := g.Get(ctx, &hydrapb.GetRequest{Swamps: []*hydrapb.GetSwamp{{SwampName: gwSwamp, Keys: []string{"a", "c", "e"}}}})
+	h.Assert(err == nil && resp != nil, "final-read")
+	if err != nil || resp == nil {
+		return
+	}
+	matching := 0
+	for _, t := range resp.Swamps[0].Treasures {
+		b := t.BytesVal
+		for i := 0; i+3 < len(b); i++ {
+			if b[i] == 0xa1 && b[i+1] == 's' && b[i+2] == 0xa1 && b[i+3] == 'd' {
+				matching++
+				break
+			}
+		}
+	}
+	h.Assert(matching <= 1, "created-matches-never-exceed-cap")
+	h.Cover("end")
+}
+
 // ---------- C19 at gateway level: event conversion and the stream ----------
 
 // c19stream is the server side of a subscription stream: SendMsg appends to a plain slice, like
